@@ -115,6 +115,16 @@ def cases(tier, seed, prop):
             probe = {'s': rnd.choice(['!', 'doc', 'html:xt', 'p{${lang}}']), 'cfg': rnd.randrange(3), 'cache': True}
             out.append({'cfgs': cfgs, 'as_object': as_object, 'hist': hist, 'probe': probe, 'g': 'markup-cache-variables'})
             continue
+        if rnd.random() < .1:
+            # the same dictionary passed to consecutive calls, edited by its owner in between
+            cfgs = [{'type': 'stylesheet'}] if css else [rnd.choice([{}, {'syntax': 'xml'}, {'options': {'output.indent': '  '}}])]; as_object = [False]; k = 1
+            edits = [{'stylesheet.intUnit': 'pt'}, {'stylesheet.between': ' = '}, {'stylesheet.intUnit': 'rem', 'stylesheet.after': ''}] if css else [{'output.indent': '....'}, {'output.selfClosingStyle': 'xhtml'}, {'output.tagCase': 'upper'}, {'output.format': False}]
+            abs_ = ['p10', 'm5', 'pos:a'] if css else ['ul>li*2', 'div>br', 'p>img']
+            hist = [{'s': rnd.choice(abs_), 'cfg': 0, 'cache': False}]
+            for _ in range(rnd.randint(1, 3)): hist.append({'s': rnd.choice(abs_), 'cfg': 0, 'cache': False, 'edit': rnd.choice(edits)})
+            probe = {'s': rnd.choice(abs_), 'cfg': 0, 'cache': False, 'edit': rnd.choice(edits)}
+            out.append({'cfgs': cfgs, 'as_object': as_object, 'hist': hist, 'probe': probe, 'g': 'edited-between-calls'})
+            continue
         globs = None
         if not shared_cache and rnd.random() < .3:
             # calls that differ in their global configuration (plain dictionaries: a resolved Config has its global layers built in)
@@ -140,6 +150,8 @@ def req(case):
     p = case['probe']
     c = copy.deepcopy(case['cfgs'][p['cfg']])
     if 'ctxclass' in p: c['context']['attributes']['class'] = p['ctxclass']
+    for st_ in case['hist'] + [p]:
+        if 'edit' in st_ and st_['cfg'] == p['cfg']: c.setdefault('options', {}).update(st_['edit'])
     return '%s;%s' % (hx(p['s']), cfgcodec.encode(mk(c), case['globs'][p['glob']] if 'glob' in p else None))
 
 
@@ -207,6 +219,7 @@ def run(case, prop):
     def call(step):
         c = objs[step['cfg']]
         if 'ctxclass' in step: c['context']['attributes']['class'] = step['ctxclass']        # the caller edits its own context element
+        if 'edit' in step and not isinstance(c, Config): c.setdefault('options', {}).update(step['edit'])      # ... or its own options, in place
         if step['cache']:
             if isinstance(c, Config): c.cache = cache
             else: c['cache'] = cache
@@ -225,6 +238,9 @@ def run(case, prop):
     after = residue()
     p = case['probe']
     pc = copy.deepcopy(case['cfgs'][p['cfg']])
+    for st_ in case['hist'] + [p]:
+        if 'edit' in st_ and st_['cfg'] == p['cfg'] and not case['as_object'][p['cfg']]:
+            pc.setdefault('options', {}).update(st_['edit'])
     if 'ctxclass' in p:
         pc['context']['attributes']['class'] = p['ctxclass']
         for s0 in snap: s0['context']['attributes']['class'] = p['ctxclass']             # the harness's own edit is not a modification by the library
@@ -235,6 +251,7 @@ def run(case, prop):
             len(case['hist']), p['s'], pc, ' + shared cache' if p['cache'] else '', got[1], want[1], [(h['s'], h['cfg'], h['cache']) + ((h['ctxclass'],) if 'ctxclass' in h else ()) + (('global', case['globs'][h['glob']]) if 'glob' in h else ()) for h in case['hist']]))
     # the caller's configuration dictionaries keep their content (apart from the cache entry the harness itself toggles)
     for c, s0 in zip(cfgs, snap):
+        if case['g'] == 'edited-between-calls': break          # the owner edited it itself
         c2 = {k: v for k, v in c.items() if k != 'cache'}
         c2['options'] = {k: v for k, v in c2['options'].items() if not callable(v) and k != 'markup.href'}
         s1 = copy.deepcopy(s0); s1.setdefault('options', {})
